@@ -293,15 +293,19 @@ def make_rollout(agent, cfg: Dict[str, Any], seed: int, done_mode: str = "mixed"
     """PPO / IPPO experiences in the list-of-steps layout the on-policy loops build."""
     r = np.random.RandomState(seed % (2**32 - 1))
     o_sp, a_sp = spaces_of(cfg)
+    # actions / log-probs / values come from the agent's own get_action, as in the on-policy loops (with arbitrary
+    # 'old values' PPO's clipped value loss can legitimately have a zero gradient)
+    seed_all(seed)
     if cfg["algo"] == "PPO":
         states, actions, log_probs, rewards, dones, values = [], [], [], [], [], []
         for t in range(T):
             states.append(sample_obs(o_sp, r, E))
-            actions.append(sample_act(a_sp, r, E))
-            log_probs.append(-r.random_sample(E).astype(np.float32))
+            a_, lp_, _, v_ = agent.get_action(states[-1])
+            actions.append(np.asarray(a_))
+            log_probs.append(np.asarray(lp_, dtype=np.float32))
             rewards.append(r.uniform(-1, 1, size=E).astype(np.float32))
             dones.append(_done_vec(r, E, done_mode))
-            values.append(r.uniform(-1, 1, size=E).astype(np.float32))
+            values.append(np.asarray(v_, dtype=np.float32))
         next_state = sample_obs(o_sp, r, E)
         next_done = _done_vec(r, E, done_mode)
         return (states, actions, log_probs, rewards, dones, values, next_state, next_done)
@@ -313,13 +317,15 @@ def make_rollout(agent, cfg: Dict[str, Any], seed: int, done_mode: str = "mixed"
     dn = {a: [] for a in ids}
     vl = {a: [] for a in ids}
     for t in range(T):
+        obs_t = {a: sample_obs(o_sp[i], r, E) for i, a in enumerate(ids)}
+        a_, lp_, _, v_ = agent.get_action(obs=obs_t)
         for i, a in enumerate(ids):
-            st[a].append(sample_obs(o_sp[i], r, E))
-            ac[a].append(sample_act(a_sp[i], r, E))
-            lp[a].append(-r.random_sample(E).astype(np.float32))
+            st[a].append(obs_t[a])
+            ac[a].append(np.asarray(a_[a]))
+            lp[a].append(np.asarray(lp_[a], dtype=np.float32))
             rw[a].append(r.uniform(-1, 1, size=E).astype(np.float32))
             dn[a].append(_done_vec(r, E, done_mode))
-            vl[a].append(r.uniform(-1, 1, size=E).astype(np.float32))
+            vl[a].append(np.asarray(v_[a], dtype=np.float32))
     nst = {a: sample_obs(o_sp[i], r, E) for i, a in enumerate(ids)}
     ndn = {a: _done_vec(r, E, done_mode) for a in ids}
     return (st, ac, lp, rw, dn, vl, nst, ndn)
